@@ -320,4 +320,97 @@ func (g *gen) xrefs(m *Module, sc *scope, visible []export, file int, direct map
 	g.feat("func:ret-value")
 	g.feat("decl:interface")
 	m.Decls = append(m.Decls, itf)
+	if !cycle {
+		g.shadows(m, sc, enums, structs)
+	}
+}
+
+// shadows: this module declares types with the SAME short name as types of other modules (struct
+// vs struct, struct vs enum, enum vs struct) and uses both: `Other::T` means the other module's
+// type, bare `T` this module's, mixed in struct members, vector/map element types and interface
+// parameters / return types.
+func (g *gen) shadows(m *Module, sc *scope, enums, structs []export) {
+	own := map[string]bool{}
+	for _, d := range m.Decls {
+		own[d.Name] = true
+	}
+	type pair struct {
+		other export
+		mine  *Decl
+	}
+	var pairs []pair
+	declare := func(ex export, asEnum bool, feat string) {
+		if ex.mod == m.Name || own[ex.d.Name] {
+			return
+		}
+		own[ex.d.Name] = true
+		var d *Decl
+		if asEnum {
+			d = &Decl{Kind: "enum", Name: ex.d.Name, Mems: []EnumMem{{Name: g.name("EM", false), Kind: 0, Val: int64(3 + g.rng.Intn(50))},
+				{Name: g.name("EM", false), Kind: 2}}}
+			sc.enums = append(sc.enums, d)
+		} else {
+			d = &Decl{Kind: "struct", Name: ex.d.Name, Fields: []Field{
+				{Tag: g.rng.Intn(4), Req: true, Name: g.name("m", true), Ty: &Ty{Kind: "prim", Prim: "long"}},
+				{Tag: 7, Req: false, Name: g.name("m", true), Ty: &Ty{Kind: "prim", Prim: "string"}}}}
+			sc.structs = append(sc.structs, d)
+		}
+		sc.emod[d] = m.Name
+		m.Decls = append(m.Decls, d)
+		pairs = append(pairs, pair{ex, d})
+		g.feat("decl:" + d.Kind)
+		g.feat("xmodule:same-short-name:" + feat)
+	}
+	declare(structs[g.rng.Intn(len(structs))], false, "struct-vs-struct")
+	declare(enums[g.rng.Intn(len(enums))], false, "struct-vs-enum")
+	declare(structs[g.rng.Intn(len(structs))], true, "enum-vs-struct")
+	if len(pairs) == 0 {
+		return
+	}
+	theirs := func(p pair) *Ty {
+		g.feat("xmodule:same-short-name:ref-qualified")
+		return &Ty{Kind: "named", Mod: p.other.mod, Name: p.other.d.Name, IsEnum: p.other.d.Kind == "enum", Qual: true}
+	}
+	mine := func(p pair) *Ty {
+		q := g.rng.Intn(4) == 0 // now and then this module's own type by its qualified name
+		if q {
+			g.feat("xmodule:same-short-name:ref-own-qualified")
+		} else {
+			g.feat("xmodule:same-short-name:ref-unqualified")
+		}
+		return &Ty{Kind: "named", Mod: m.Name, Name: p.mine.Name, IsEnum: p.mine.Kind == "enum", Qual: q}
+	}
+	str := &Ty{Kind: "prim", Prim: "string"}
+	st := &Decl{Kind: "struct", Name: g.name("Sh", true)}
+	tag := 0
+	add := func(ty *Ty, feat string) {
+		st.Fields = append(st.Fields, Field{Tag: tag, Req: g.rng.Intn(2) == 0, Ty: ty, Name: g.name("h", true)})
+		tag += 1 + g.rng.Intn(2)
+		g.feat("xmodule:same-short-name:" + feat)
+	}
+	itf := &Decl{Kind: "interface", Name: g.name("Ih", true)}
+	for _, p := range pairs {
+		add(mine(p), "member")
+		add(theirs(p), "member")
+		add(&Ty{Kind: "vector", K: theirs(p)}, "vector-elem")
+		add(&Ty{Kind: "vector", K: mine(p)}, "vector-elem")
+		add(&Ty{Kind: "map", K: str, V: theirs(p)}, "map-value")
+		add(&Ty{Kind: "map", K: str, V: mine(p)}, "map-value")
+		itf.Funcs = append(itf.Funcs,
+			Func{Name: g.name("fh", true), Ret: theirs(p), Params: []Param{
+				{Out: false, Ty: mine(p), Name: g.name("p", true)},
+				{Out: true, Ty: theirs(p), Name: g.name("p", true)},
+				{Out: false, Ty: &Ty{Kind: "vector", K: theirs(p)}, Name: g.name("p", true)}}},
+			Func{Name: g.name("fh", true), Ret: mine(p), Params: []Param{
+				{Out: true, Ty: mine(p), Name: g.name("p", true)},
+				{Out: false, Ty: theirs(p), Name: g.name("p", true)}}})
+		g.feat("xmodule:same-short-name:param")
+		g.feat("xmodule:same-short-name:ret")
+	}
+	g.rng.Shuffle(len(st.Fields), func(a, b int) { st.Fields[a], st.Fields[b] = st.Fields[b], st.Fields[a] })
+	m.Decls = append(m.Decls, st, itf)
+	sc.structs = append(sc.structs, st)
+	sc.emod[st] = m.Name
+	g.feat("decl:struct")
+	g.feat("decl:interface")
 }
